@@ -45,6 +45,7 @@ fn all() {
     family_group!(c01_gen, crate::h_board::c01_gen);
     family_group!(c01_legal, crate::h_board::c01_legal);
     family_group!(c01_nq, crate::h_board::c01_nq);
+    family_group!(c01_gen_after, crate::h_board::c01_gen_after);
     family_group!(c02_make, crate::h_board::c02_make);
     family_group!(c03_undo, crate::h_board::c03_undo);
     family_group!(c03_undo_hash, crate::h_board::c03_undo_hash);
@@ -58,7 +59,9 @@ fn all() {
     squares64!(rsq, c04_rook, crate::h_tables::c04_rook);
     squares64!(rsq, c04_bishop, crate::h_tables::c04_bishop);
     maybe("c04_leapers::all", || crate::h_tables::c04_leapers());
-    maybe("c05_full::check", || crate::h_check::c05_check_full());
+    maybe("c05_full::check", || crate::h_check::c05_check_full(2));
+    maybe("c05_full::check_w", || crate::h_check::c05_check_full(0));
+    maybe("c05_full::check_b", || crate::h_check::c05_check_full(1));
     maybe("c05_full::terminal", || crate::h_engine::c11_terminal());
     maybe("c06_lemma::zero_rows", || crate::h_zobrist::c06_zero_rows());
     maybe("c06_lemma::linear_p", || crate::h_zobrist::c06_linear(P));
@@ -82,8 +85,11 @@ fn all() {
     maybe("c11::tables", || crate::h_engine::c11_tables());
     maybe("c11::stage", || crate::h_engine::c11_stage());
     maybe("c11::material", || crate::h_engine::c11_material());
-    maybe("c11::eval1", || crate::h_engine::c11_eval(1));
-    maybe("c11::eval_mover1", || crate::h_engine::c11_eval_mover(1));
+    maybe("c11::eval1", || crate::h_engine::c11_eval(1, 0b111110));
+    maybe("c11::eval1_pnb", || crate::h_engine::c11_eval(1, 0b001110));
+    maybe("c11::eval1_rq", || crate::h_engine::c11_eval(1, 0b110000));
+    maybe("c11::eval2_p", || crate::h_engine::c11_eval(2, 0b000010));
+    maybe("c11::factor", || crate::h_engine::c11_factor());
     maybe("c11::terminal", || crate::h_engine::c11_terminal());
     maybe("c11::mate_distance", || crate::h_engine::c11_mate_distance());
     maybe("c15::move_total", || crate::h_uci::c15_move_total());
